@@ -13,15 +13,37 @@ def tier_of(tier):
     return "thorough" if tier == "thorough" else "quick"
 
 
-def build(desc, workdir, name="plt00000", prehistory=None):
+PATHFORMS_ENABLED = True        # the runner switches it off for checks that spell their paths themselves (PATHFORMS = False)
+
+
+def build(desc, workdir, name="plt00000", prehistory=None, pathform=None):
     """Write the plotfile described by desc under workdir; return (path, RefPlot).  For half of the descriptors (by a hash of
     the descriptor; `prehistory` forces it) the process has ALREADY USED the plotfile when the check starts: see
     reader_prehistory()."""
+    import zlib
+    key = zlib.crc32(json.dumps(desc, sort_keys=True, default=str).encode())
     path = os.path.join(workdir, name)
-    ref = refmodel.write_plotfile(desc, path)
+    if pathform is None:
+        pathform = "dotdot" if (key // 2) % 4 == 3 else "plain"
+    if pathform == "dotdot" and PATHFORMS_ENABLED and not os.environ.get("KV_NO_PATHFORMS") and not os.path.lexists(path):
+        # the path handed to the check is `<workdir>/_lnk/../<name>`, where _lnk is a symbolic link to a directory two levels
+        # down: the operating system resolves it to <workdir>/_deep/<name> (the plotfile); collapsing `_lnk/..` as TEXT gives
+        # <workdir>/<name> - where a plotfile of the same mesh and names but OTHER values waits (another time step)
+        deep = os.path.join(workdir, "_deep")
+        os.makedirs(os.path.join(deep, "_sub"), exist_ok=True)
+        if not os.path.islink(os.path.join(workdir, "_lnk")):
+            os.symlink(os.path.join("_deep", "_sub"), os.path.join(workdir, "_lnk"))
+        try:
+            twin = dict(desc, seed=int(desc.get("seed", 0)) + 777)
+            refmodel.write_plotfile(twin, path)
+        except Exception:
+            pass
+        path = os.path.join(workdir, "_lnk", "..", name)
+        ref = refmodel.write_plotfile(desc, os.path.join(deep, name))
+    else:
+        ref = refmodel.write_plotfile(desc, path)
     if prehistory is None:
-        import zlib
-        prehistory = zlib.crc32(json.dumps(desc, sort_keys=True, default=str).encode()) % 2 == 1
+        prehistory = key % 2 == 1
     if prehistory and not os.environ.get("KV_NO_PREHISTORY"):
         reader_prehistory(path)
     return path, ref
